@@ -76,7 +76,16 @@ func cmdVerify(args []string) {
 	w.solve(all, *timeout, false, &stats)
 	fmt.Printf("solved %d obligations in %.1fs: %v\n", len(all), time.Since(t1).Seconds(), stats.PerBackend)
 	bad := 0
+	coverOK := map[string]bool{}
 	for _, o := range all {
+		if o.Cover && o.Status == "sat" {
+			coverOK[o.Name] = true
+		}
+	}
+	for _, o := range all {
+		if o.Cover && coverOK[o.Name] {
+			continue
+		}
 		ok := o.Status == "unsat" && !o.Cover || o.Cover && o.Status == "sat"
 		if !ok {
 			bad++
